@@ -228,9 +228,16 @@ func (em *emitter) emitPackage(pkg *ast.Package, extendingFile bool, path string
 				vars[v.Name] = index
 			}
 			em.assignValuesToAddresses(addresses, n.Rhs)
-			for name, reg := range pkgVarRegs {
-				index := vars[name]
-				em.fb.emitSetVar(false, reg, int(index), pkgVarTypes[name].Kind())
+			// Emit the SetVar instructions in declaration order, not in the
+			// iteration order of the map, so that the emitted code is the
+			// same at every build.
+			for _, v := range n.Lhs {
+				reg, ok := pkgVarRegs[v.Name]
+				if !ok {
+					continue
+				}
+				index := vars[v.Name]
+				em.fb.emitSetVar(false, reg, int(index), pkgVarTypes[v.Name].Kind())
 			}
 			em.fb = backupFb
 		}
